@@ -130,7 +130,7 @@ Theorem draw_spec g src k :
   else (None, []).
 Proof.
   unfold draw. pose proof (width_bounds k) as [Hb Hev].
-  rewrite (draw_loop_spec g k ((k + 1) / 2)) by (simpl; lia).
+  rewrite (draw_loop_spec g k ((k + 1) / 2)) by (cbn [length]; lia).
   fold (width k). destruct (Nat.leb_spec (width k) (length src)) as [Hle|Hgt]; [|reflexivity].
   cbn [app].
   assert (Hlen : length (bm_list g (firstn (width k) src)) = width k).
